@@ -68,6 +68,10 @@ def validate_trace(ev_path, events, work, name):
             body = block.split("\nError: Invariant")[0]
             ls = re.findall(r"/\\ l = (\d+)", body)
             tags.add((m.group(1), int(ls[-1])))
+    # TLC names only the first violated invariant of a state: the complete tag sets are printed by ReportAll
+    for m in re.finditer(r'<<"TAGS", (\d+), \{([^}]*)\}>>', res.out):
+        for t in re.findall(r'"(\w+)"', m.group(2)):
+            tags.add((t, int(m.group(1))))
     return res, tags
 
 
